@@ -155,11 +155,161 @@ func ruleHybridFlagBytes(r *Run, rule string) {
 	})
 	sort.Slice(rflags, func(i, j int) bool { return rflags[i].pos < rflags[j].pos })
 	site := w.Pos(rf.Pos()) + " " + w.Name(rf)
-	if len(wflags) != len(rflags) || len(wflags) < 6 {
+	if len(rflags) != 0 && (len(wflags) != len(rflags) || len(wflags) < 6) {
 		r.Und(rule, "flagbytes:count", site, fmt.Sprintf("writer emits %d flag bytes, reader decodes %d (expected 6 on both sides: three index-presence flags, three per-document flags)", len(wflags), len(rflags)))
 		return
 	}
 	// what each decoded byte is used for: `b == 1` / `b != 0` feeding a field of the documentInfo literal or a presence test
+	var useBoolRec func(bv ssa.Value, means1 bool, i int, want string, uses *int, okAll *bool, detail *string)
+	useBool := func(bv ssa.Value, means1 bool, i int, want string, uses *int, okAll *bool, detail *string) {
+		if bv.Referrers() == nil {
+			return
+		}
+		for _, r3 := range *bv.Referrers() {
+			switch y := r3.(type) {
+			case *ssa.Store:
+				fa, isFA := y.Addr.(*ssa.FieldAddr)
+				if !isFA {
+					// a named local that is loaded again later (hasVector := flag): follow the cell
+					if a, isA := y.Addr.(*ssa.Alloc); isA && y.Val == bv {
+						for _, r4 := range *a.Referrers() {
+							if ld, isLd := r4.(*ssa.UnOp); isLd && ld.Op == token.MUL {
+								useBoolRec(ld, means1, i, want, uses, okAll, detail)
+							}
+						}
+					}
+					continue
+				}
+				f := fieldName(fa.X.Type(), fa.Field)
+				*uses++
+				if !means1 || !strings.HasSuffix(want, "."+f) {
+					*okAll = false
+					*detail = fmt.Sprintf("byte #%d is written as `%s` but decoded into %s (true ⇔ byte is 1: %v)", i, want, f, means1)
+				}
+			case *ssa.BinOp:
+				var otherOp ssa.Value = y.X
+				if y.X == bv {
+					otherOp = y.Y
+				}
+				x, nonNil, okN := nilCmp(c, otherOp)
+				if !okN {
+					continue
+				}
+				*uses++
+				present := x + "!=nil"
+				rejectsWhenDifferent := (y.Op == token.NEQ) == (means1 == nonNil)
+				rejecting := false
+				for _, r4 := range *y.Referrers() {
+					if iff, isIf := r4.(*ssa.If); isIf {
+						if allPathsFail(iff.Block().Succs[0]) {
+							rejecting = true
+						}
+					}
+				}
+				if !rejecting || !rejectsWhenDifferent || present != want {
+					*okAll = false
+					*detail = fmt.Sprintf("byte #%d is written as `%s` but checked against %s (rejects a mismatch: %v)", i, want, present, rejecting && rejectsWhenDifferent)
+				}
+			case *ssa.Phi:
+				useBoolRec(y, means1, i, want, uses, okAll, detail)
+			}
+		}
+	}
+	useBoolRec = useBool
+	// the reader may decode through one local helper `readFlag() (bool, error)`: its calls, in order, are the decoded flags
+	if len(rflags) == 0 {
+		for _, af := range rf.AnonFuncs {
+			if af.Signature.Results().Len() != 2 || tstr(af.Signature.Results().At(0).Type(), nil) != "bool" {
+				continue
+			}
+			// exactly one byte is decoded, and the result is `b == 1` (or an equivalent spelling)
+			nAlloc := 0
+			means1, okRet := false, true
+			allInstrs(af, func(in ssa.Instruction) {
+				if al, isA := in.(*ssa.Alloc); isA {
+					if pt, isP := al.Type().Underlying().(*types.Pointer); isP && (tstr(pt.Elem(), nil) == "uint8" || tstr(pt.Elem(), nil) == "byte") {
+						nAlloc++
+					}
+				}
+			})
+			for _, ret := range returnsOf(af) {
+				switch x := ret.Results[0].(type) {
+				case *ssa.Const:
+				case *ssa.BinOp:
+					k, isK := x.Y.(*ssa.Const)
+					if !isK || k.Value == nil || k.Value.Kind() != constant.Int {
+						okRet = false
+						continue
+					}
+					switch {
+					case x.Op == token.EQL && k.Int64() == 1:
+						means1 = true
+					default:
+						okRet = false
+					}
+				default:
+					okRet = false
+				}
+			}
+			if nAlloc != 1 || !okRet || !means1 {
+				continue
+			}
+			type fcall struct {
+				pos token.Pos
+				v   ssa.Value
+			}
+			var calls []fcall
+			allInstrs(rf, func(in ssa.Instruction) {
+				call, isCall := in.(*ssa.Call)
+				if !isCall {
+					return
+				}
+				if mc, isMC := call.Call.Value.(*ssa.MakeClosure); isMC && mc.Fn == ssa.Value(af) {
+					for _, ref := range *call.Referrers() {
+						if ex, isEx := ref.(*ssa.Extract); isEx && ex.Index == 0 {
+							calls = append(calls, fcall{call.Pos(), ex})
+						}
+					}
+				}
+				// the closure value may be held in a variable
+				if ld, isLd := call.Call.Value.(*ssa.UnOp); isLd {
+					if a, isA := ld.X.(*ssa.Alloc); isA {
+						if sv := singleStore(a); sv != nil {
+							if mc, isMC := sv.(*ssa.MakeClosure); isMC && mc.Fn == ssa.Value(af) {
+								for _, ref := range *call.Referrers() {
+									if ex, isEx := ref.(*ssa.Extract); isEx && ex.Index == 0 {
+										calls = append(calls, fcall{call.Pos(), ex})
+									}
+								}
+							}
+						}
+					}
+				}
+			})
+			sort.Slice(calls, func(i, j int) bool { return calls[i].pos < calls[j].pos })
+			if len(calls) == len(wflags) && len(calls) >= 6 {
+				for i, fc := range calls {
+					want := wflags[i].when
+					uses, okAll, detail := 0, true, ""
+					useBool(fc.v, true, i, want, &uses, &okAll, &detail)
+					key := fmt.Sprintf("flagbytes:byte#%d", i)
+					if strings.HasPrefix(want, "?") || strings.HasPrefix(want, "!") {
+						r.Bad(rule, key, w.Pos(wflags[i].pos)+" "+w.Name(wf), "flag byte #"+fmt.Sprint(i)+" is not `1 when present, 0 otherwise`: "+want)
+						continue
+					}
+					if detail == "" && uses == 0 {
+						detail = fmt.Sprintf("byte #%d (`%s`) is decoded but never interpreted", i, want)
+					}
+					r.Check(okAll && uses > 0, rule, key, w.Pos(fc.pos)+" "+w.Name(rf), fmt.Sprintf("byte #%d: 1 ⇔ %s on both sides (decoded by %s)", i, want, w.Name(af)), detail)
+				}
+				return
+			}
+		}
+	}
+	if len(rflags) == 0 {
+		r.Und(rule, "flagbytes:count", site, fmt.Sprintf("writer emits %d flag bytes, but how the reader decodes them was not recognised (byte locals handed to the codec helper, or one local helper returning `b == 1`)", len(wflags)))
+		return
+	}
 	for i, rfl := range rflags {
 		want := wflags[i].when // e.g. P0.vectorIndex!=nil, next(range(P0.docInfo))#2.hasVector
 		uses := 0
@@ -204,7 +354,8 @@ func ruleHybridFlagBytes(r *Run, rule string) {
 					continue
 				}
 				// where does the boolean go?
-				for _, r3 := range *bo.Referrers() {
+				useBool(bo, means1, i, want, &uses, &okAll, &detail)
+				for _, r3 := range []ssa.Instruction{} {
 					switch y := r3.(type) {
 					case *ssa.Store:
 						fa, isFA := y.Addr.(*ssa.FieldAddr)
